@@ -59,7 +59,17 @@ void dtw_dba_{{ suffix }}(
     seq_t avg_step;
     idx_t path_length;
 
+    {%- if "ptrs" in suffix %}
+    // The compact array is widest for the largest length difference, not always for the longest series
+    {%- endif %}
     idx_t wps_length = dtw_settings_wps_length(t, {{max_length}}, settings);
+    {%- if "ptrs" in suffix %}
+    for (r_idx=0; r_idx<nb_ptrs; r_idx++) {
+        if (dtw_settings_wps_length(t, lengths[r_idx], settings) > wps_length) {
+            wps_length = dtw_settings_wps_length(t, lengths[r_idx], settings);
+        }
+    }
+    {%- endif %}
     wps = (seq_t *)malloc(wps_length * sizeof(seq_t));
 
     for (pi=0; pi<t; pi++) {
